@@ -584,6 +584,25 @@ def named_length_cases(rng, n):
     return out
 
 
+def big_module_cases():
+    """Modules with many top-level declarations (19..100): a chain of dependent constants, a chain of structures that contain the
+    previous structure and an array with a named length, and functions between them; any order must be accepted and print the
+    same values. (Sorting and grouping code can behave differently above small element counts.)"""
+    out = []
+    for n in (6, 9, 10, 11, 16, 20, 21, 22, 33, 50):
+        decls = ["const K0: usize = 1;", "struct S0\n{\n\tdata: [K0]u8,\n}"]
+        size = 1
+        for i in range(1, n):
+            decls.append("const K%d: usize = K%d + 1;" % (i, i - 1))
+            decls.append("struct S%d\n{\n\tprev: S%d,\n\tdata: [K%d]u8,\n}" % (i, i - 1, i))
+            size += i + 1
+            if i % 3 == 0:
+                decls.append("fn f%d(x: usize) -> usize\n{\n\treturn: x + K%d\n}" % (i, i))
+        decls.append("fn main() -> i32\n{\n\tprint!(K%d, \" \", |:S%d|, \"\\n\");\n\treturn: 0\n}" % (n - 1, n - 1))
+        out.append(("named", decls, "%d %d" % (n, size), "big%d" % len(decls)))
+    return out
+
+
 def run_named(case):
     _, decls, total, form = case
     cov = {"named_length_programs": 1, "named_form_" + form: 1}
@@ -591,7 +610,7 @@ def run_named(case):
     if len(decls) <= 5:
         orders = list(itertools.permutations(range(len(decls))))
     else:
-        prng = common.rng_for(total, PROP, "named_orders", len(decls))
+        prng = common.rng_for(len(decls), PROP, "named_orders", str(total))
         orders = [list(range(len(decls))), list(reversed(range(len(decls))))]
         for _ in range(118):
             o = list(range(len(decls)))
@@ -653,6 +672,7 @@ def main(tier, seed, replay=None):
     cases += [("table", n, s, w) for n, s, w in type_table()]
     cases += [("enum", ws, b, text) for ws, b, text in enum_types(3)]
     cases += named_length_cases(common.rng_for(seed, PROP, "named"), 40 if q else 400)
+    cases += big_module_cases()
     for r in common.run_sharded(run_case, cases):
         if r.get("verdict") is None and "harness_error" not in r:
             run.merge_counters(r.get("cov"))
